@@ -100,6 +100,7 @@ class Mono:
 
     def __init__(self, pos=()):
         self.pos_names = set(pos)   # names of symbols known > 0 from the hypotheses
+        self.opaque = {}            # id -> (fresh const, defining term)
         self.exp_arg = {}           # placeholder id -> z3 argument (for log(exp(t)) = t)
         self.syms = {}
         self.logs = {}
@@ -141,7 +142,12 @@ class Mono:
             return self.to_sp(ch[0]) ** self.to_sp(ch[1])
         if k == z3.Z3_OP_TO_REAL:
             return self.to_sp(ch[0])
-        raise NotImplementedError(f'to_sp {t.decl()} {t}')
+        # anything else (if-then-else, ...) becomes an opaque real atom defined by an equality
+        key = t.get_id()
+        if key not in self.opaque:
+            o = self.fresh('O')
+            self.opaque[key] = (o, t)
+        return self.to_sp(self.opaque[key][0])
 
     def to_z3(self, e):
         if e.is_Rational:
@@ -308,6 +314,8 @@ class Mono:
                     ax.append(z3.Implies(t3 == t1 + t2, g3 == g1 * g2))
         for k, (s, y) in self.logs.items():
             ax.append(logph[k] == s)
+        for o, t in self.opaque.values():
+            ax.append(o == t)
 
         def SS(t):
             for _ in range(8):
